@@ -4,6 +4,7 @@ import re
 from analysis.facts import strip_generics
 from analysis.guards import dominating_conditions, has_cond
 from analysis.pathinterp import enumerate_paths, path_calls
+from . import C08 as _C08
 
 EXPLANATION = (
     "Decided on CosmeticFilterCache: (1) the partition of generic rules is total and exclusive — every "
@@ -31,6 +32,10 @@ def check(run):
         run.guard("C17.2.prefix-agreement", cfg, lambda: rule_prefix(run, F, cfg))
         run.guard("C17.3.exception-on-every-emission", cfg, lambda: rule_emission(run, F, cfg))
         run.guard("C17.5.key-extraction", cfg, lambda: rule_key(run, F, cfg))
+        if cfg == "A":
+            b = run.borrow("C08", only=r"cosmetic_filter_cache::CosmeticFilterCache\.(simple_class_rules|simple_id_rules|complex_class_rules|complex_id_rules|misc_generic_selectors)\b",
+                           why="each generic-rule store must be serialized from, and restored into, itself")
+            run.guard("C17.via.C08.1.state-coverage", cfg, lambda: _C08.rule_coverage(b, F, cfg))
 
 
 def _store_of(f, t):
